@@ -156,6 +156,15 @@ pub fn run(ctx: &Ctx) -> i32 {
         total.merge(run_generated(ctx, &engine, "generic", || case_strategy(GENERIC, max_ops, cfg_any_strategy()), generic, 2000));
     }
 
+    if ctx.tier == Tier::Thorough && std::env::var_os("VERIF_NO_FUZZ").is_none() {
+        // coverage-guided leg: byte input decoded into a pool history, same interpreter and monitors
+        let seeds: Vec<Vec<u8>> = vec![
+            vec![0x10, 0, 0x80, 2, 0, 6, 0, 8, 0, 2, 0, 10, 0, 2, 0, 11, 0, 13, 0, 0, 0x80, 2, 0x80],
+            vec![0x30, 14, 0, 14, 0x80, 0, 0x80, 0, 0x80, 2, 0, 5, 0, 13, 0, 2, 0xff],
+            (0..200u32).map(|i| (i * 37 % 251) as u8).collect(),
+        ];
+        total.merge(run_fuzz_leg(ctx, "fz_pool", "poolsim", Some(d.prop), ctx.cases(0, 40_000), 400, seeds));
+    }
     if d.prop == "C06" {
         total.merge(run_generated(ctx, &engine, "many-origins", move || many_origins_strategy(40), ctx.cases(240, 20_000), 300));
     }
